@@ -9,9 +9,82 @@ import (
 	zzvs "github.com/virus-evolution/gofasta/pkg/zzvs"
 )
 
-type Pool = sync.Pool
-type Map = sync.Map
 type Cond = sync.Cond
+
+// Pool: inside a controlled run Get and Put are scheduling points (they conflict with everything, like any
+// access to shared memory) and the pool is a deterministic LIFO free list, so an object that is Put is the
+// next one handed out - the reuse a real sync.Pool may or may not do, made certain. Outside a run it is a
+// sync.Pool.
+type Pool struct {
+	New  func() any
+	real sync.Pool
+	mu   sync.Mutex
+	free []any
+}
+
+func (p *Pool) Get() any {
+	if zzvs.Active() {
+		zzvs.Shared("sync.Pool.Get")
+		p.mu.Lock()
+		if n := len(p.free); n > 0 {
+			x := p.free[n-1]
+			p.free = p.free[:n-1]
+			p.mu.Unlock()
+			return x
+		}
+		p.mu.Unlock()
+		if p.New != nil {
+			return p.New()
+		}
+		return nil
+	}
+	x := p.real.Get()
+	if x == nil && p.New != nil {
+		x = p.New()
+	}
+	return x
+}
+
+func (p *Pool) Put(x any) {
+	if zzvs.Active() {
+		zzvs.Shared("sync.Pool.Put")
+		p.mu.Lock()
+		p.free = append(p.free, x)
+		p.mu.Unlock()
+		return
+	}
+	p.real.Put(x)
+}
+
+// Map: a sync.Map whose operations are scheduling points inside a controlled run.
+type Map struct{ real sync.Map }
+
+func (m *Map) Load(k any) (any, bool)           { zzvs.Shared("sync.Map.Load"); return m.real.Load(k) }
+func (m *Map) Store(k, v any)                   { zzvs.Shared("sync.Map.Store"); m.real.Store(k, v) }
+func (m *Map) Delete(k any)                     { zzvs.Shared("sync.Map.Delete"); m.real.Delete(k) }
+func (m *Map) LoadOrStore(k, v any) (any, bool) { zzvs.Shared("sync.Map.LoadOrStore"); return m.real.LoadOrStore(k, v) }
+func (m *Map) LoadAndDelete(k any) (any, bool)  { zzvs.Shared("sync.Map.LoadAndDelete"); return m.real.LoadAndDelete(k) }
+func (m *Map) Swap(k, v any) (any, bool)        { zzvs.Shared("sync.Map.Swap"); return m.real.Swap(k, v) }
+func (m *Map) CompareAndSwap(k, o, n any) bool  { zzvs.Shared("sync.Map.CompareAndSwap"); return m.real.CompareAndSwap(k, o, n) }
+func (m *Map) CompareAndDelete(k, o any) bool   { zzvs.Shared("sync.Map.CompareAndDelete"); return m.real.CompareAndDelete(k, o) }
+func (m *Map) Range(f func(k, v any) bool)      { zzvs.Shared("sync.Map.Range"); m.real.Range(f) }
+
+// OnceFunc / OnceValue / OnceValues in terms of the scheduler-aware Once.
+func OnceFunc(f func()) func() {
+	var o Once
+	return func() { o.Do(f) }
+}
+func OnceValue[T any](f func() T) func() T {
+	var o Once
+	var v T
+	return func() T { o.Do(func() { v = f() }); return v }
+}
+func OnceValues[T1, T2 any](f func() (T1, T2)) func() (T1, T2) {
+	var o Once
+	var v1 T1
+	var v2 T2
+	return func() (T1, T2) { o.Do(func() { v1, v2 = f() }); return v1, v2 }
+}
 type Locker = sync.Locker
 
 func NewCond(l Locker) *Cond { return sync.NewCond(l) }
